@@ -264,6 +264,41 @@ def run(F, rep):
         rep.check(inner is not None and not early, 'C05.E2', 'equations-of-variable', am.where(c),
                   'the equations of a variable are not gathered by a complete loop over mInternalEquations (first match only, or early exit): a variable of an NLA system lists one of its equations only', 'complete loop over mInternalEquations')
 
+    # ------------------------------------------------------------------ D / R
+    rep.rule('C05.D1', 'an internal equation records a variable once per ROLE: add<Role>Variable tests membership in the list it is about to extend (its own role list) - testing another list (e.g. the list of all variables) '
+                       'drops a variable that occurs both plain and inside a derivative from one of its roles')
+    n_d = 0
+    for g in F.funcs.values():
+        if g.cls and g.cls.endswith('AnalyserInternalEquation') and g.name.startswith('add') and g.name.endswith('Variable'):
+            finds = [c for c in g.walk() if c.get('k') == 'Call' and c.get('callee') in ('std::find', 'std::count', 'std::find_if')]
+            pushes = [c for c in g.walk() if c.get('k') == 'Call' and c.get('mc') and c.get('fn') in ('push_back', 'emplace_back')]
+            if not finds or not pushes:
+                continue
+            n_d += 1
+            tested = {m_['n'] for fnd in finds for m_ in walk(fnd) if m_.get('k') == 'Member' and m_.get('field')}
+            first = render(receiver(sorted(pushes, key=lambda c: (c.get('l', 0), c['i']))[0])).split('->')[-1]
+            rep.check(tested == {first}, 'C05.D1', g.name, g.where(finds[0]), '%s tests membership in %s but extends %s first' % (g.short, sorted(tested), first), 'tests and extends %s' % first)
+    if n_d < 2:
+        raise AnalysisBroken('C05.D1: addVariable/addOdeVariable vanished (%d found)' % n_d)
+
+    rep.rule('C05.R1', 'a function of analyser.cpp that calls itself makes progress: the recursive call does not receive exactly the function\'s own arguments again (the walk over connected variables must continue from the neighbour, not from the variable it started at)')
+    n_r = 0
+    for g in F.funcs.values():
+        if not g.file.endswith('/analyser.cpp'):
+            continue
+        for c in g.walk():
+            if c.get('k') == 'Call' and not c.get('opc') and g.key in F.callee_keys(c):
+                args = c['c'][1:] if c.get('mc') else c['c']
+                if not args:
+                    continue
+                n_r += 1
+                same = all(a.get('k') == 'Ref' and a.get('dk') == 'parm' and i < len(g.params) and a.get('d') == g.params[i]['d'] for i, a in enumerate(args))
+                reassigned = any(((x.get('k') == 'Call' and x.get('opc') == '=') or (x.get('k') == 'Bin' and x.get('op') == '=')) and x['c'][0].get('k') == 'Ref' and x['c'][0].get('dk') == 'parm' for x in g.walk())
+                other_obj = c.get('mc') and c.get('c') and c['c'][0].get('k') not in ('This', 'NoObj') and render(c['c'][0]) != 'this'
+                rep.check(not same or reassigned or other_obj, 'C05.R1', '%s|%s' % (g.short.split('::')[-1], render(c)[:50]), g.where(c), '%s calls itself with its own arguments unchanged: the traversal never leaves the node it started from' % g.short, 'arguments change')
+    if n_r < 10:
+        raise AnalysisBroken('C05.R1: only %d self-recursive calls in analyser.cpp (20+ confirmed)' % n_r)
+
     # ------------------------------------------------------------------ H: analyser state is rebuilt for every model (clause shared with C12)
     import c12
     c12.rule_h1(F, rep, 'C05.H1', [st for st in c12.STATE if st[0] == 'Analyser::AnalyserImpl'])
